@@ -369,3 +369,46 @@ func lvalueCopySource(f *ir.Func, lv ast.Expr) ast.Expr {
 	}
 	return asg.RHS
 }
+
+// originUnwritten resolves e like origin, one hop, but only if the variables the
+// defining expression reads are not written on any path from the definition to
+// the node `at` (so the definition still describes the value at `at`).
+func originUnwritten(f *ir.Func, e ast.Expr, at *cfgx.Node) ast.Expr {
+	id, ok := ast.Unparen(e).(*ast.Ident)
+	if !ok || at == nil {
+		return e
+	}
+	obj := f.ObjOf(id)
+	if obj == nil {
+		return e
+	}
+	defs := wholeDefs(f, obj)
+	if len(defs) != 1 || defs[0].RHS == nil {
+		return e
+	}
+	g := f.Graph()
+	dn := g.NodeContaining(defs[0].LHS.Pos())
+	if dn == nil || dn == at || !g.DominatedByNode(at, dn) {
+		return e
+	}
+	read := map[types.Object]bool{}
+	ast.Inspect(defs[0].RHS, func(n ast.Node) bool {
+		if x, ok := n.(*ast.Ident); ok {
+			if o, ok := f.ObjOf(x).(*types.Var); ok && !o.IsField() {
+				read[o] = true
+			}
+		}
+		return true
+	})
+	for n := range pathNodesBetween(g, dn, at) {
+		if n.AST == nil {
+			continue
+		}
+		for _, w := range f.WritesIn(n.AST, false) {
+			if read[f.ObjOf(rootOfLvalue(w.LHS))] {
+				return e
+			}
+		}
+	}
+	return defs[0].RHS
+}
